@@ -3,28 +3,41 @@ C13 — defused parsing refuses every entity declaration before any expansion.
 
 What is run
 -----------
-defuse mode x locality (base URL absent / local / remote) x input channel (text, bytes, StringIO, BytesIO,
-path, file URL, binary / text file objects, non-seekable raw / buffered / BufferedReader / text streams,
-http URL through a stub opener delivering a seekable or a non-seekable response, with and without an
-explicit `opener`) x payload catalogue (entity kinds, nesting, position, encodings, BOMs, prologs larger
-than the 64 KiB buffer; clean DOCTYPEs) x role (instance, main schema, included schema) on the REAL code.
-
-Recorded per case: exception class / parsed tree, the calls of `defuse_xml` (which stream, rewind or not),
-the `seek` calls on DefusableReader (scan end, buffer length), audit events for external fetches.
+(1) defuse mode x locality (base URL absent / local / remote) x input channel (text, bytes, StringIO, BytesIO,
+    path, file URL, binary / text file objects, non-seekable raw / buffered / BufferedReader / text streams,
+    http URL through a stub opener delivering a seekable or a non-seekable response, with and without an
+    explicit `opener`) x payload catalogue x role (instance, main schema, included schema) on the REAL code.
+    The catalogue is a list of syntax trees of the prolog grammar of lean/XsVerif/Model/Prolog.lean; the bytes
+    of every payload are printed by the Lean `Prolog.render` (driver op `prolog`), its labels (`mustRefuse`,
+    handler expected by `firstHandler`, `regular`) are computed by the Lean functions the theorems are about.
+(2) the grammar family: exhaustive small scope (standalone x external identifier x every sequence of at most
+    2 (quick) / 3 (thorough) items of a 12-item alphabet of declarations) + seeded random prologs; for each the
+    first handler reached by the real SafeExpatParser is compared with the model, and the property is evaluated
+    through XMLResource on a rotating channel.
+(3) schema builds: seeded random trees of schema documents (include / import, local files and stub URLs,
+    payloads from the grammar); the real sequence of open / scan / parse / failure events of every resource is
+    recorded and compared with the model's `build`.
+(4) seeded read/seek/tell scripts on the real DefusableReader, op for op.
+(5) the named counter-example witnesses of Props/C13.lean are rendered by the driver and replayed.
 
 Property evaluation on the real code (independent of Lean): when defusing applies and the payload declares
 an entity / external subset -> XMLResourceForbidden, no expanded text, no fetch of the external identifier;
-clean documents -> the same tree as with defuse='never'.
+clean documents -> the same tree as with defuse='never'; in a build no resource to which defusing applies is
+parsed without having been scanned immediately before, and a refused include aborts the build.
 
-Correspondence with the Lean model (XsVerif/Model/Defuse.lean, driver drv_c13):
-  plan    observed way of defusing + outcome   == model plan / outcome
-  reader  seeded read/seek/tell scripts on the real DefusableReader == model Reader.run (op for op)
+Correspondence with the Lean model (drv_c13):
+  doc      observed way of defusing + outcome + (scan end, buffer length) of the recorded seek(0)
+           == model plan / outcomeDoc / scanEndOf / bufLenOf
+  prolog   first handler of the real scan == firstHandler == classify(render);  Prolog.render == plain printer
+  build    recorded event sequence and final status == model build
+  reader   scripts on the real DefusableReader == model Reader.run (op for op)
 """
 from __future__ import annotations
 
 import io
 import json
 import os
+import re
 import shutil
 import sys
 import tempfile
@@ -38,24 +51,31 @@ from urllib.parse import urlsplit
 from xml.etree import ElementTree as ET
 
 from harness.core import Ctx, Driver, LEAN
+from harness import lib_prolog as G
 
 PROPS = 'XsVerif.Props.C13'
 AUDIT = 'XsVerif.Audit.C13'
 LEAN_TARGETS = ['XsVerif.Props.C13', 'drv_c13']
-LEANCHECK = ['XsVerif.Model.Defuse', 'XsVerif.Lemmas.Defuse', 'XsVerif.Props.C13']
-RULE = ('one case = (defuse mode, base-URL locality, input channel, payload, role) on the real library; the payload '
-        'catalogue is crossed exhaustively with modes, localities, channels and roles in the thorough tier and with a '
-        'rotating locality in the quick tier; plus seeded read/seek/tell scripts against the real DefusableReader; '
-        'non-trivial = defusing applied (a branch of open() other than "not defused" was taken) or, for reader scripts, '
-        'the script crossed the buffer edge or sought; distinct by canonical JSON')
+LEANCHECK = ['XsVerif.Model.Defuse', 'XsVerif.Model.Prolog', 'XsVerif.Lemmas.Defuse', 'XsVerif.Lemmas.Prolog',
+             'XsVerif.Props.C13']
+RULE = ('one case = (defuse mode, base-URL locality, input channel, payload, role) on the real library, the payload '
+        'catalogue (syntax trees printed by the Lean grammar) crossed exhaustively with modes, localities, channels and '
+        'roles in the thorough tier and with a rotating locality in the quick tier; or one prolog of the grammar family '
+        '(exhaustive small scope + seeded random) scanned by the real SafeExpatParser and parsed through XMLResource on a '
+        'rotating channel; or one seeded schema build (tree of includes/imports) with its recorded event trace; or one '
+        'seeded read/seek/tell script on the real DefusableReader; non-trivial = defusing applied (a branch of open() '
+        'other than "not defused" was taken), the prolog has a DOCTYPE, the build loaded at least one sub-resource, the '
+        'script crossed the buffer edge or sought; distinct by canonical JSON')
 TRUSTED = ['expat calls EntityDeclHandler / UnparsedEntityDeclHandler / ExternalEntityRefHandler before it expands or '
            'fetches anything: observed on every payload (no expanded text, no fetch), not proved',
-           'the label "must be refused" of a payload is the one it gets by construction in the generator '
-           '(it contains an ENTITY declaration or an external DOCTYPE identifier)',
-           'xml.dom.pulldom reads the stream in blocks of 16364 bytes; the scan end is measured on the real '
-           'DefusableReader, not predicted']
+           'the scanner `classify` is a model of the prolog tokenizer of expat for the grammar of Model/Prolog.lean only; '
+           'it is compared with the real parser on every generated prolog (first handler reached), not proved against expat',
+           'UTF-16 / ISO-8859-1 payloads are transcoded from the Lean rendering by the harness',
+           'xml.dom.pulldom block size (16364) and DefusableReader buffer (65536) are constants of the model; the predicted '
+           'scan end is compared with the recorded one on every wrapped stream']
 ASSUMPTIONS = ['underlying non-seekable buffered streams deliver exactly the requested number of bytes unless they end '
-               '(io.BufferedIOBase.read contract)']
+               '(io.BufferedIOBase.read contract)',
+               'expat reports the first start tag as soon as its closing ">" has been fed (no reparse deferral: expat < 2.6)']
 
 XS = 'http://www.w3.org/2001/XMLSchema'
 HOST = 'http://stub.test'
@@ -130,6 +150,8 @@ class Obs:
     seeks: list = []
     table: dict = {}
     seekable_response = True
+    trace: list = []            # build trace: ('opened'|'scanned'|'parsed'|'failed', resource url, ...)
+    stack: list = []            # resources whose open() is running
 
 
 def _hook(event: str, args: tuple) -> None:
@@ -182,6 +204,7 @@ def install_observers() -> None:
         rec = {'rewind': rewind, 'seekable': bool(fp.seekable()), 'io': io_kind(fp), 'result': 'ok'}
         if Obs.active:
             Obs.defuse_calls.append(rec)
+            Obs.trace.append(('scanned', Obs.stack[-1] if Obs.stack else '?', rec))
         try:
             return orig(fp, rewind)
         except BaseException as e:
@@ -203,88 +226,178 @@ def install_observers() -> None:
 
     DefusableReader.seek = seek
 
+    from xmlschema.resources.xml_loader import XMLResourceLoader
+    orig_open = xr.XMLResource.open
+
+    def open_(self, *a, **k):               # noqa
+        if not Obs.active:
+            return orig_open(self, *a, **k)
+        Obs.trace.append(('opened', self.url))
+        Obs.stack.append(self.url)
+        try:
+            return orig_open(self, *a, **k)
+        except BaseException as e:
+            Obs.trace.append(('failed', self.url, type(e).__name__))
+            raise
+        finally:
+            Obs.stack.pop()
+
+    xr.XMLResource.open = open_
+    orig_parse = XMLResourceLoader._parse
+
+    def _parse(self, fp, *a, **k):          # noqa
+        if Obs.active:
+            Obs.trace.append(('parsed', getattr(self, 'url', None)))
+        return orig_parse(self, fp, *a, **k)
+
+    XMLResourceLoader._parse = _parse
+
 
 # ----------------------------------------------------------------------------------------------
 # payload catalogue
 # ----------------------------------------------------------------------------------------------
 def payloads(R: str, big: int) -> list[dict]:
-    """Each payload: name, xmldecl?, misc (before DOCTYPE), doctype text or None, refuse label, uses (text
-    placed in the document that references an entity) — the label follows from the construction."""
+    """The catalogue: syntax trees of the prolog grammar (harness/lib_prolog.py, Model/Prolog.lean).
+    Each payload: name, ast (with the placeholder {root} for the name of the root element), xmldecl?,
+    standalone?, use (text placed in the document that references an entity).  No label is written here:
+    the labels are computed from the tree (G.must_refuse = direct reading of the property; handler / regular by
+    the Lean functions through the driver)."""
     secret = 'file://' + R + '/secret.txt'
     ext = HOST + '/ext.dtd'
-    ent = f'<!ENTITY e "{MARK}">'
-    filler_decls = ''.join(f'<!ELEMENT f{i} (#PCDATA)>' for i in range(big // 24 + 1))
+    L, D, PR = G.lit, G.doctype, G.prolog
+    ent = ['entity', False, 'e', ['value', L(MARK)]]
+    it = G.items(MARK, secret, ext)
+    filler = [['element', f'f{i}', '(#PCDATA)'] for i in range(big // 24 + 1)]
+    sysx, sysf = ['system', L(ext)], ['system', L(secret)]
     P = [
-        # ---- clean -------------------------------------------------------------------------
-        dict(name='plain'),
-        dict(name='xmldecl', xmldecl=True),
-        dict(name='comments-pis', xmldecl=True, misc='<!-- c --><?pi data?>\n'),
-        dict(name='doctype-bare', doctype='<!DOCTYPE {root}>'),
-        dict(name='doctype-decls', doctype='<!DOCTYPE {root} [<!ELEMENT x (#PCDATA)><!ATTLIST x a CDATA "d"><!-- c --><?p q?>]>'),
-        dict(name='notation-only', doctype='<!DOCTYPE {root} [<!NOTATION n SYSTEM "n">]>'),
-        dict(name='entity-word-in-comment', misc='<!-- <!ENTITY e "x"> -->'),
-        dict(name='big-comment-clean', xmldecl=True, misc='<!--' + 'x' * big + '-->'),
-        dict(name='big-doctype-clean', doctype='<!DOCTYPE {root} [' + filler_decls + ']>'),
-        dict(name='big-pi-clean', misc='<?p ' + 'y' * (big // 2) + '?>'),
-        # ---- must be refused ---------------------------------------------------------------
-        dict(name='internal', doctype='<!DOCTYPE {root} [' + ent + ']>', refuse=True, use='&e;'),
-        dict(name='internal-unused', doctype='<!DOCTYPE {root} [' + ent + ']>', refuse=True),
-        dict(name='internal-after-decls', doctype='<!DOCTYPE {root} [<!ELEMENT x ANY><!-- c -->' + ent + ']>', refuse=True, use='&e;'),
-        dict(name='nested', doctype=f'<!DOCTYPE {{root}} [<!ENTITY a "{MARK}"><!ENTITY e "&a;&a;&a;">]>', refuse=True, use='&e;'),
-        dict(name='external-file', doctype=f'<!DOCTYPE {{root}} [<!ENTITY e SYSTEM "{secret}">]>', refuse=True, use='&e;'),
-        dict(name='external-http', doctype=f'<!DOCTYPE {{root}} [<!ENTITY e SYSTEM "{ext}">]>', refuse=True, use='&e;'),
-        dict(name='external-public', doctype=f'<!DOCTYPE {{root}} [<!ENTITY e PUBLIC "-//X//Y" "{secret}">]>', refuse=True),
-        dict(name='parameter', doctype='<!DOCTYPE {root} [<!ENTITY % p "<!ELEMENT x ANY>">%p;]>', refuse=True),
-        dict(name='parameter-external', doctype=f'<!DOCTYPE {{root}} [<!ENTITY % p SYSTEM "{ext}">%p;]>', refuse=True),
-        dict(name='unparsed', doctype='<!DOCTYPE {root} [<!NOTATION n SYSTEM "n"><!ENTITY u SYSTEM "u.gif" NDATA n>]>', refuse=True),
-        dict(name='extdtd-system', doctype=f'<!DOCTYPE {{root}} SYSTEM "{ext}">', refuse=True),
-        dict(name='extdtd-file', doctype=f'<!DOCTYPE {{root}} SYSTEM "{secret}">', refuse=True),
-        dict(name='extdtd-public', doctype='<!DOCTYPE {root} PUBLIC "-//X//Y" "x.dtd">', refuse=True),
-        dict(name='extdtd-and-subset', doctype=f'<!DOCTYPE {{root}} SYSTEM "{ext}" [<!ELEMENT x ANY>]>', refuse=True),
-        dict(name='xmldecl-internal', xmldecl=True, misc='<!-- c -->\n', doctype='<!DOCTYPE {root} [' + ent + ']>', refuse=True, use='&e;'),
-        dict(name='big-comment-entity', xmldecl=True, misc='<!--' + 'x' * big + '-->', doctype='<!DOCTYPE {root} [' + ent + ']>', refuse=True, use='&e;'),
-        dict(name='big-doctype-entity', doctype='<!DOCTYPE {root} [' + filler_decls + ent + ']>', refuse=True, use='&e;'),
-        dict(name='attr-default-entity', doctype='<!DOCTYPE {root} [' + ent + '<!ATTLIST {root} a CDATA "&e;">]>', refuse=True),
+        # ---- no entity declaration, no external identifier ---------------------------------------
+        dict(name='plain', ast=PR()),
+        dict(name='xmldecl', ast=PR(), xmldecl=True),
+        dict(name='comments-pis', ast=PR(misc1=[['comment', ' c '], ['pi', 'pi', 'data'], ['space', '\n']]), xmldecl=True),
+        dict(name='doctype-bare', ast=PR(doctype=D())),
+        dict(name='doctype-decls', ast=PR(doctype=D(subset=[['element', 'x', '(#PCDATA)'],
+                                                             ['attlist', 'x', [['a', 'CDATA', ['lit', L('d')]]]],
+                                                             ['comment', ' c '], ['pi', 'p', 'q']]))),
+        dict(name='notation-only', ast=PR(doctype=D(subset=[['notation', 'n', ['system', L('n')]]]))),
+        dict(name='entity-word-in-comment', ast=PR(misc1=[['comment', ' <!ENTITY e "x"> ']])),
+        dict(name='tricky-literals-clean', ast=PR(doctype=D(subset=[it['A'], it['N'], it['C'], it['I'], it['S']]))),
+        dict(name='standalone-clean', ast=PR(doctype=D(subset=[it['L']])), standalone=True),
+        dict(name='big-comment-clean', ast=PR(misc1=[['comment', 'x' * big]]), xmldecl=True),
+        dict(name='big-doctype-clean', ast=PR(doctype=D(subset=filler))),
+        dict(name='big-pi-clean', ast=PR(misc1=[['pi', 'p', 'y' * (big // 2)]])),
+        # ---- entity declarations / external identifiers --------------------------------------------
+        dict(name='internal', ast=PR(doctype=D(subset=[ent])), use='&e;'),
+        dict(name='internal-unused', ast=PR(doctype=D(subset=[ent]))),
+        dict(name='internal-after-decls', ast=PR(doctype=D(subset=[['element', 'x', 'ANY'], ['comment', ' c '], ent])), use='&e;'),
+        dict(name='internal-after-tricky', ast=PR(doctype=D(subset=[it['A'], it['N'], it['C'], it['I'], ent])), use='&e;'),
+        dict(name='nested', ast=PR(doctype=D(subset=[['entity', False, 'a', ['value', L(MARK)]],
+                                                      ['entity', False, 'e', ['value', L('&a;&a;&a;')]]])), use='&e;'),
+        dict(name='external-file', ast=PR(doctype=D(subset=[['entity', False, 'e', ['ext', sysf]]])), use='&e;'),
+        dict(name='external-http', ast=PR(doctype=D(subset=[['entity', False, 'e', ['ext', sysx]]])), use='&e;'),
+        dict(name='external-public', ast=PR(doctype=D(subset=[['entity', False, 'e', ['ext', ['public', L('-//X//Y'), L(secret)]]]]))),
+        dict(name='parameter', ast=PR(doctype=D(subset=[['entity', True, 'p', ['value', L('<!ELEMENT x ANY>')]], ['peref', 'p']]))),
+        dict(name='parameter-external', ast=PR(doctype=D(subset=[['entity', True, 'p', ['ext', sysx]], ['peref', 'p']]))),
+        dict(name='unparsed', ast=PR(doctype=D(subset=[['notation', 'n', ['system', L('n')]],
+                                                        ['entity', False, 'u', ['ndata', ['system', L('u.gif')], 'n']]]))),
+        dict(name='extdtd-system', ast=PR(doctype=D(ext=sysx))),
+        dict(name='extdtd-file', ast=PR(doctype=D(ext=sysf))),
+        dict(name='extdtd-public', ast=PR(doctype=D(ext=['public', L('-//X//Y'), L('x.dtd')]))),
+        dict(name='extdtd-and-subset', ast=PR(doctype=D(ext=sysx, subset=[['element', 'x', 'ANY']]))),
+        dict(name='xmldecl-internal', ast=PR(misc1=[['comment', ' c '], ['space', '\n']], doctype=D(subset=[ent])), xmldecl=True, use='&e;'),
+        dict(name='standalone-internal', ast=PR(doctype=D(subset=[ent])), standalone=True, use='&e;'),
+        dict(name='standalone-extdtd-entity', ast=PR(doctype=D(ext=sysx, subset=[ent])), standalone=True, use='&e;'),
+        dict(name='big-comment-entity', ast=PR(misc1=[['comment', 'x' * big]], doctype=D(subset=[ent])), xmldecl=True, use='&e;'),
+        dict(name='big-doctype-entity', ast=PR(doctype=D(subset=filler + [ent])), use='&e;'),
+        dict(name='attr-default-entity', ast=PR(doctype=D(subset=[ent, ['attlist', '{root}', [['a', 'CDATA', ['lit', L('&e;')]]]]]))),
+        # ---- the two kinds of prologs on which the handlers and the direct reading differ (C13-F4, C13-F5) --
+        dict(name='standalone-extdtd', ast=PR(doctype=D(ext=sysx)), standalone=True),
+        dict(name='peref-then-entity', ast=PR(doctype=D(subset=[['peref', 'p'], ent]))),
     ]
     for p in P:
         p.setdefault('xmldecl', False)
-        p.setdefault('misc', '')
-        p.setdefault('doctype', None)
-        p.setdefault('refuse', False)
+        p.setdefault('standalone', None)
         p.setdefault('use', '')
-        # the label by construction
-        dt = p['doctype'] or ''
-        assert p['refuse'] == ('<!ENTITY' in dt or ' SYSTEM "' in dt.split('[')[0] or ' PUBLIC "' in dt.split('[')[0]), p['name']
+        p['refuse'] = G.must_refuse(p['ast'])
     return P
 
 
 ENCODINGS = ['utf-8', 'utf-8-bom', 'utf-16', 'iso-8859-1']
+DECL_ENC = {'utf-8': None, 'utf-8-bom': None, 'utf-16': 'UTF-16', 'iso-8859-1': 'ISO-8859-1'}
+PY_CODEC = {'utf-8': 'utf-8', 'utf-8-bom': 'utf-8', 'utf-16': 'utf-16', 'iso-8859-1': 'iso-8859-1'}
 
 
-def render(p: dict, role: str, encoding: str = 'utf-8') -> tuple[str, bytes]:
-    """document text and its encoded bytes"""
+def payload_ast(p: dict, role: str, encoding: str) -> dict:
+    """the syntax tree of the prolog of payload `p` for a role and an encoding"""
+    ast = G.with_root(p['ast'], 'r' if role == 'instance' else 'xs:schema')
+    decl_enc = DECL_ENC[encoding]
+    if p['xmldecl'] or decl_enc or p['standalone'] is not None:
+        ast['xmldecl'] = {'encoding': decl_enc, 'standalone': p['standalone']}
+    return ast
+
+
+def body_of(p: dict, role: str) -> str:
     if role == 'instance':
-        rootname = 'r'
-        body = f'<r>t{p["use"]}</r>'
-    else:
-        rootname = 'xs:schema'
-        use = p['use']
-        body = (f'<xs:schema xmlns:xs="{XS}"><xs:element name="m{"_" if use else ""}{use}" type="xs:string"/>'
-                f'</xs:schema>')
-    decl_enc = {'utf-8': None, 'utf-8-bom': None, 'utf-16': 'UTF-16', 'iso-8859-1': 'ISO-8859-1'}[encoding]
-    head = ''
-    if p['xmldecl'] or decl_enc:
-        head = '<?xml version="1.0"' + (f' encoding="{decl_enc}"' if decl_enc else '') + '?>'
-    text = head + p['misc'] + (p['doctype'].replace('{root}', rootname) if p['doctype'] else '') + body
-    if encoding == 'utf-8':
-        data = text.encode('utf-8')
-    elif encoding == 'utf-8-bom':
-        data = b'\xef\xbb\xbf' + text.encode('utf-8')
-    elif encoding == 'utf-16':
-        data = text.encode('utf-16')
-    else:
-        data = text.encode('iso-8859-1')
-    return text, data
+        return f'<r>t{p["use"]}</r>'
+    use = p['use']
+    return (f'<xs:schema xmlns:xs="{XS}"><xs:element name="m{"_" if use else ""}{use}" type="xs:string"/>'
+            f'</xs:schema>')
+
+
+class Mat:
+    """a materialised payload: bytes printed by the Lean grammar (or by the plain printer when Lean is
+    unavailable), labels computed by the Lean functions"""
+    __slots__ = ('ast', 'text', 'data', 'total', 'tag_end', 'handler', 'regular', 'refuse', 'irregular', 'wf')
+
+
+def materialise(ctx: Ctx, drv: Optional[Driver], asts: list[dict], bodies: list[str], encodings: list[str],
+                what: str) -> list[Mat]:
+    """Print the prologs (driver op `prolog`), append the bodies, encode."""
+    res = [None] * len(asts)
+    if drv is not None:
+        res = drv.query([{'op': 'prolog', 'ast': a, 'root': '<r>'} for a in asts])
+    out = []
+    for ast, body, enc, m in zip(asts, bodies, encodings, res):
+        x = Mat()
+        x.ast = ast
+        plain = G.py_render(ast)
+        x.refuse = G.must_refuse(ast)
+        x.irregular = G.irregular_kind(ast)
+        x.handler, x.regular, x.wf = None, None, None
+        pro = plain
+        if m is not None:
+            if 'err' in m:
+                ctx.mismatch('driver error (' + what + ')', {'ast': ast}, None, m)
+            else:
+                pro = bytes.fromhex(m['hex'])
+                x.handler, x.regular, x.wf = m['handler'], m['regular'], m['wf']
+                ctx.traces += 1
+                if pro != plain:
+                    ctx.mismatch('Prolog.render vs the plain printer of the harness', {'ast': ast}, plain.hex()[:400], m['hex'][:400])
+                if m['must_refuse'] != x.refuse:
+                    ctx.mismatch('mustRefuse vs the direct reading of the property on the tree', {'ast': ast}, x.refuse, m['must_refuse'])
+                if not m['wf']:
+                    ctx.mismatch('a generated prolog is outside the grammar (Prolog.wf = false)', {'ast': ast}, None, m)
+                if m['classify'] != m['handler']:
+                    ctx.mismatch('classify (render p ++ root) vs firstHandler p (instance of classify_render)', {'ast': ast},
+                                 m['classify'], m['handler'])
+        bom = pro.startswith(b'\xef\xbb\xbf')
+        ptext = (pro[3:] if bom else pro).decode('utf-8')
+        x.text = ptext + body
+        codec = PY_CODEC[enc]
+        idx = len(ptext) + body.index('>') + 1
+        x.data = (b'\xef\xbb\xbf' if bom else b'') + x.text.encode(codec)
+        x.tag_end = (3 if bom else 0) + len(x.text[:idx].encode(codec))
+        x.total = len(x.data)
+        out.append(x)
+    return out
+
+
+def handler_refuses(x: Mat) -> bool:
+    """whether the scan reaches a handler: the Lean verdict when available, else the direct reading minus the two
+    known deviations"""
+    if x.handler is not None:
+        return x.handler['v'] != 'clean'
+    return x.refuse and x.irregular is None
 
 
 # channel: (name, needs bytes?, static facts)
@@ -440,7 +553,14 @@ def load_known() -> list[dict]:
 
 
 def known_match(case: dict, detail: dict) -> Optional[str]:
-    """Exact rules of notes/findings/C13.json (all three are refusals with XMLResourceOSError, nothing parsed)."""
+    """Exact rules of notes/findings/C13.json.  F2 / F3: refusals with XMLResourceOSError, nothing parsed.
+    F4 / F5: a prolog the handlers do not react to is parsed; nothing is expanded or fetched."""
+    if case.get('irregular') and case.get('refuse') and detail.get('outcome') == 'parsed' \
+            and not detail.get('secret_opened') and not detail.get('ext_served') and MARK not in (detail.get('tree') or ''):
+        if case['irregular'] == 'standalone-external':
+            return 'C13-F4'
+        if case['irregular'] == 'peref':
+            return 'C13-F5'
     seekable, kind, has_url = STATIC[case['channel']]
     if case['role'] == 'included':
         # C13-F2 seen through xs:include: the OSError of the included resource makes the loader skip the include
@@ -456,10 +576,8 @@ def known_match(case: dict, detail: dict) -> Optional[str]:
     if kind == 'other' and not has_url:
         return 'C13-F3'                                   # non-seekable text stream: can never be defused
     if case.get('refuse'):
-        return None                                        # the two below concern clean documents only
+        return None                                        # the one below concerns clean documents only
     sk = [s for s in detail.get('seeks', []) if s['target'] == 0]
-    if kind == 'raw' and not sk:
-        return 'C13-F1'                                   # BufferedReader over a non-seekable raw stream, no DefusableReader
     if kind in ('buffered', 'raw') and not case['channel'].endswith('-opener'):
         if sk and sk[-1]['pos_before'] > sk[-1]['buf']:
             return 'C13-F2'                               # scan went beyond the initial buffer
@@ -474,7 +592,7 @@ def evaluate(ctx: Ctx, case: dict, out: dict, reference: Optional[dict], does_ap
     def fail(what: str) -> None:
         fid = known_match(case, det)
         if fid:
-            ctx.known_hit(fid)
+            ctx.known_hit(fid, case, det)
         else:
             ctx.failure(what, case, det)
 
@@ -502,6 +620,11 @@ def evaluate(ctx: Ctx, case: dict, out: dict, reference: Optional[dict], does_ap
 # ----------------------------------------------------------------------------------------------
 # the run
 # ----------------------------------------------------------------------------------------------
+BIG = 70000
+# the witness of Props/C13.lean `clean_refused_counterexample_doc`: payload big-comment-clean as an instance
+WITNESS_DOC = {'payload': 'big-comment-clean', 'total': 70036, 'tag_end': 70031}
+
+
 def explore(ctx: Ctx, drv: Optional[Driver], full: bool) -> None:
     install_observers()
     R = os.path.realpath(tempfile.mkdtemp(prefix='c13-', dir='/tmp'))
@@ -514,17 +637,32 @@ def explore(ctx: Ctx, drv: Optional[Driver], full: bool) -> None:
         Obs.table = {'/ext.dtd': b'<!ELEMENT x ANY>'}
         import xmlschema
         xmlschema.XMLSchema10(f'<xs:schema xmlns:xs="{XS}"/>')
-        BIG = 70000
         P = payloads(R, BIG)
         bases = [None, R, HOST + '/dir/']
-        n = 0
+        # ---- print every (payload, kind of document, encoding) with the Lean grammar -----------------
+        keys, asts, bodies, encs_ = [], [], [], []
+        for p in P:
+            p['encs'] = ENCODINGS if (p['name'] in ('plain', 'xmldecl', 'internal', 'extdtd-system', 'doctype-decls')) else ['utf-8']
+            for kind in ('instance', 'schema'):
+                for enc in p['encs']:
+                    keys.append((p['name'], kind, enc))
+                    asts.append(payload_ast(p, kind, enc))
+                    if enc == 'utf-8-bom':
+                        asts[-1]['bom'] = True
+                    bodies.append(body_of(p, kind))
+                    encs_.append(enc)
+        mats = dict(zip(keys, materialise(ctx, drv, asts, bodies, encs_, 'catalogue')))
+        w = mats[(WITNESS_DOC['payload'], 'instance', 'utf-8')]
+        if drv is not None and (w.total, w.tag_end) != (WITNESS_DOC['total'], WITNESS_DOC['tag_end']):
+            ctx.mismatch('the numbers of clean_refused_counterexample_doc are not those of the replayed payload',
+                         WITNESS_DOC, {'total': w.total, 'tag_end': w.tag_end}, WITNESS_DOC)
         for role in ('instance', 'schema', 'included'):
             chans = CHANNELS if role != 'included' else ['path', 'file-url', 'url-seekable', 'url-nonseekable',
                                                          'url-seekable-opener', 'url-nonseekable-opener']
             for pi, p in enumerate(P):
-                encs = ENCODINGS if (p['name'] in ('plain', 'xmldecl', 'internal', 'extdtd-system', 'doctype-decls')) else ['utf-8']
-                for enc in encs:
-                    text, data = render(p, 'instance' if role == 'instance' else 'schema', enc)
+                for enc in p['encs']:
+                    x = mats[(p['name'], 'instance' if role == 'instance' else 'schema', enc)]
+                    text, data = x.text, x.data
                     fname = f'{role}_{p["name"]}_{enc}.xml'
                     with open(os.path.join(R, fname), 'wb') as f:
                         f.write(data)
@@ -535,7 +673,6 @@ def explore(ctx: Ctx, drv: Optional[Driver], full: bool) -> None:
                             has_url = STATIC[ch][2] or role == 'included'
                             blist = bases if (full and not has_url) else [bases[(pi + ci + mi) % 3]] if not has_url else [None]
                             for base_arg in blist:
-                                n += 1
                                 eff_base = base_arg
                                 if has_url:
                                     u = {'path': 'file://' + R + '/' + fname, 'file-url': 'file://' + R + '/' + fname}.get(
@@ -543,10 +680,12 @@ def explore(ctx: Ctx, drv: Optional[Driver], full: bool) -> None:
                                     eff_base = os.path.dirname(u)
                                 does_apply = applies(mode, eff_base)
                                 case = {'role': role, 'channel': ch, 'mode': mode, 'base': base_class(eff_base),
-                                        'payload': p['name'], 'encoding': enc, 'refuse': p['refuse']}
+                                        'payload': p['name'], 'encoding': enc, 'refuse': x.refuse}
+                                if x.irregular:
+                                    case['irregular'] = x.irregular
                                 out = run_real(R, role, ch, mode, base_arg, text, data, fname)
                                 ref = None
-                                if does_apply and not p['refuse']:
+                                if does_apply and not x.refuse:
                                     ref = run_real(R, role, ch, 'never', base_arg, text, data, fname)
                                 evaluate(ctx, case, out, ref, does_apply)
                                 if role == 'included':
@@ -558,7 +697,7 @@ def explore(ctx: Ctx, drv: Optional[Driver], full: bool) -> None:
                                 ctx.count('outcome:' + out['outcome'] + (':' + out['exc'] if out['exc'] else ''))
                                 ctx.count('channel:' + ch)
                                 ctx.count('mode:' + mode)
-                                ctx.count('payload:' + ('refuse' if p['refuse'] else 'clean'))
+                                ctx.count('payload:' + ('refuse' if x.refuse else 'clean'))
                                 if drv is not None:
                                     seekable, kind, _ = STATIC[ch]
                                     calls = out['defuse_calls'][1:] if (role == 'included' and out['main_defused']) else out['defuse_calls']
@@ -567,17 +706,20 @@ def explore(ctx: Ctx, drv: Optional[Driver], full: bool) -> None:
                                         seekable, kind = calls[0]['seekable'], calls[0]['io']
                                     elif role == 'included':
                                         seekable, kind = STATIC[ch][0], STATIC[ch][1]
-                                    sk = [s for s in out['seeks'] if s['target'] == 0]
-                                    scan_end, buf_len = (sk[-1]['pos_before'], sk[-1]['buf']) if sk else (0, 65536)
-                                    reqs.append({'op': 'plan', 'mode': mode, 'base': base_class(eff_base), 'seekable': seekable,
+                                    sk = [s_ for s_ in out['seeks'] if s_['target'] == 0]
+                                    reqs.append({'op': 'doc', 'mode': mode, 'base': base_class(eff_base), 'seekable': seekable,
                                                  'io': kind, 'opener': ch.endswith('-opener'), 'url': has_url,
-                                                 'must_refuse': p['refuse'], 'scan_end': scan_end, 'buf_len': buf_len})
+                                                 'must_refuse': handler_refuses(x), 'total': x.total, 'tag_end': x.tag_end})
                                     res_outcome = out['outcome']
                                     if role == 'included' and calls:
                                         # the loader turns an OSError of an included resource into a skipped include
                                         res_outcome = {'ok': 'parsed', 'XMLResourceForbidden': 'forbidden',
                                                        'XMLResourceOSError': 'oserror'}.get(calls[-1]['result'], out['outcome'])
-                                    pend.append((case, {'plan': plan, 'outcome': res_outcome, 'defused': plan != 'no-defuse'}))
+                                    impl = {'plan': plan, 'outcome': res_outcome}
+                                    if sk and not handler_refuses(x):
+                                        impl['scan_end'], impl['buf_len'] = sk[-1]['pos_before'], sk[-1]['buf']
+                                        ctx.count('scan-end-compared')
+                                    pend.append((case, impl))
         if drv is not None:
             for (case, impl), m in zip(pend, drv.query(reqs)):
                 ctx.traces += 1
@@ -586,17 +728,282 @@ def explore(ctx: Ctx, drv: Optional[Driver], full: bool) -> None:
                 elif m['plan'] != impl['plan']:
                     ctx.mismatch('way of defusing chosen by open()', case, impl, m)
                 elif m['outcome'] != impl['outcome'] and impl['outcome'] != 'FOREIGN':
-                    if (impl['plan'] == 'wrap-raw' and not case['refuse'] and impl['outcome'] == 'oserror'
-                            and m['outcome'] == 'parsed' and case['role'] != 'included'):
-                        # the model describes the repaired code (notes/fixes/C13-raw-stream-defusable-reader.patch);
-                        # on the current tree this disagreement IS the known finding C13-F1 (already counted)
-                        ctx.count('correspondence:known-C13-F1')
-                        continue
                     ctx.mismatch('outcome of defuse + parse', case, impl, m)
+                elif 'scan_end' in impl and (impl['scan_end'], impl['buf_len']) != (m['scan_end'], m['buf_len']):
+                    ctx.mismatch('position of the reader after the scan / length of its buffer', case, impl, m)
+        grammar_family(ctx, drv, R, full)
+        build_traces(ctx, drv, R, full)
+        if drv is not None:
+            witnesses(ctx, drv)
             reader_scripts(ctx, drv)
     finally:
         Obs.active = False
         shutil.rmtree(R, ignore_errors=True)
+
+
+# ----------------------------------------------------------------------------------------------
+# (2) the grammar family
+# ----------------------------------------------------------------------------------------------
+def real_first_handler(data: bytes) -> dict:
+    """what the scan of sax.py:77-84 ends with, on the real SafeExpatParser"""
+    from xmlschema.resources.sax import defuse_xml
+    from xmlschema.exceptions import XMLResourceForbidden
+    try:
+        defuse_xml(io.BytesIO(data))
+        return {'v': 'clean'}
+    except XMLResourceForbidden as e:
+        msg = str(e)
+        m = re.match(r"Entities are forbidden \(entity_name='(.*)'\)$", msg)
+        if m:
+            return {'v': 'entity', 'name': m.group(1)}
+        m = re.match(r"Unparsed entities are forbidden \(entity_name='(.*)'\)$", msg)
+        if m:
+            return {'v': 'unparsed', 'name': m.group(1)}
+        if msg.startswith('External references are forbidden'):
+            return {'v': 'external'}
+        return {'v': 'other', 'msg': msg[:80]}
+
+
+GRAMMAR_CHANNELS = ['bytes', 'BytesIO', 'nsraw', 'nsbuf', 'nsbufreader', 'fileb', 'path']
+
+
+def grammar_case(ctx: Ctx, R: str, name: str, x: Mat, ch: str, mode: str = 'always') -> None:
+    """one prolog of the grammar on the real code: first handler of the real scan vs the model, and the property
+    itself through XMLResource on channel `ch`"""
+    case = {'grammar': name, 'role': 'instance', 'channel': ch, 'mode': mode, 'base': 'absent', 'refuse': x.refuse,
+            'ast': x.ast if len(x.data) < 2000 else None}
+    if x.irregular:
+        case['irregular'] = x.irregular
+    real = real_first_handler(x.data)
+    ctx.count('handler:' + real['v'])
+    if x.handler is not None:
+        ctx.traces += 1
+        if real != x.handler:
+            ctx.mismatch('first handler reached by the real SafeExpatParser vs firstHandler', case, real, x.handler)
+    fname = 'g.xml'
+    if ch in ('fileb', 'path'):
+        with open(os.path.join(R, fname), 'wb') as f:
+            f.write(x.data)
+    out = run_real(R, 'instance', ch, mode, None, x.text, x.data, fname)
+    eff = os.path.dirname('file://' + R + '/' + fname) if ch == 'path' else None
+    does_apply = applies(mode, eff)
+    ref = run_real(R, 'instance', ch, 'never', None, x.text, x.data, fname) if does_apply and not x.refuse else None
+    evaluate(ctx, case, out, ref, does_apply)
+    ctx.case(case, x.ast['doctype'] is not None, tag='grammar')
+
+
+def grammar_family(ctx: Ctx, drv: Optional[Driver], R: str, full: bool) -> None:
+    secret = 'file://' + R + '/secret.txt'
+    ext = HOST + '/ext.dtd'
+    fam = [(n, G.with_root(a, 'r')) for n, a in G.small_scope(MARK, secret, ext, 3 if full else 2)]
+    ctx.count('grammar:small-scope', len(fam))
+    nrand = ctx.pick(400, 4000)
+    fam += [(f'random-{i}', G.with_root(G.random_prolog(ctx.rng), 'r')) for i in range(nrand)]
+    ctx.count('grammar:random', nrand)
+    mats = materialise(ctx, drv, [a for _, a in fam], ['<r>t</r>'] * len(fam), ['utf-8'] * len(fam), 'grammar family')
+    for i, ((name, _), x) in enumerate(zip(fam, mats)):
+        grammar_case(ctx, R, name, x, GRAMMAR_CHANNELS[i % len(GRAMMAR_CHANNELS)])
+        if x.irregular:
+            ctx.count('grammar:irregular:' + x.irregular)
+        if x.handler is not None:
+            ctx.count('grammar:expected:' + x.handler['v'])
+
+
+# ----------------------------------------------------------------------------------------------
+# (3) schema builds
+# ----------------------------------------------------------------------------------------------
+def build_payloads(R: str) -> list[tuple[str, dict]]:
+    secret = 'file://' + R + '/secret.txt'
+    ext = HOST + '/ext.dtd'
+    L, D, PR = G.lit, G.doctype, G.prolog
+    ent = ['entity', False, 'e', ['value', L(MARK)]]
+    return [
+        ('plain', PR()), ('plain', PR()), ('plain', PR()),
+        ('doctype-decls', PR(doctype=D(subset=[['element', 'x', 'ANY'], ['comment', ' <!ENTITY e "x"> ']]))),
+        ('internal', PR(doctype=D(subset=[ent]))),
+        ('extdtd', PR(doctype=D(ext=['system', L(ext)]))),
+        ('unparsed', PR(doctype=D(subset=[['entity', False, 'u', ['ndata', ['system', L(secret)], 'n']]]))),
+        ('standalone-extdtd', PR(xmldecl={'encoding': None, 'standalone': True}, doctype=D(ext=['system', L(ext)]))),
+    ]
+
+
+def gen_build_spec(rng: Any, b: int, npay: int) -> dict:
+    """a seeded tree of schema documents: node 0 is the main schema, the others are included / imported"""
+    nodes: list[dict] = []
+    for i in range(rng.randint(1, 6) + 1):
+        if i == 0:
+            nd = {'id': 0, 'kind': 'main', 'parent': None, 'depth': 0, 'loc': rng.choice(['text', 'text', 'local', 'remote']),
+                  'pay': 0 if rng.random() < 0.85 else rng.randrange(npay)}
+        else:
+            par = rng.choice([m for m in nodes if m['depth'] < 3])
+            nd = {'id': i, 'kind': 'include' if rng.random() < 0.6 else 'import', 'parent': par['id'],
+                  'depth': par['depth'] + 1, 'loc': rng.choice(['local', 'remote']), 'pay': rng.randrange(npay)}
+        nodes.append(nd)
+    return {'build': b, 'mode': rng.choice(MODES), 'seekable_response': rng.random() < 0.5, 'opener': rng.random() < 0.25,
+            'base_arg': rng.choice(['absent', 'local', 'remote']), 'nodes': nodes}
+
+
+def run_build(ctx: Ctx, R: str, spec: dict, PAY: list, pm: list) -> tuple[dict, dict, Optional[dict]]:
+    """Build the schema tree of `spec` on the real code with the observers on; evaluate the property on the recorded
+    trace; returns (case, observed, request for the model)."""
+    from xmlschema import XMLSchema10
+    from xmlschema.exceptions import XMLResourceForbidden, XMLResourceOSError, XMLSchemaException
+    b, mode, seekable_resp, use_opener = spec['build'], spec['mode'], spec['seekable_response'], spec['opener']
+    base_arg = {'absent': None, 'local': R, 'remote': HOST + '/dir/'}[spec['base_arg']]
+    nodes = [dict(nd) for nd in spec['nodes']]
+    for nd in nodes:
+        nd['children'] = []
+        nd['tns'] = 'urn:n0' if nd['parent'] is None else (nodes[nd['parent']]['tns'] if nd['kind'] == 'include' else f'urn:n{nd["id"]}')
+        nd['url'] = (None if nd['loc'] == 'text' else f'file://{R}/b{b}_{nd["id"]}.xsd' if nd['loc'] == 'local'
+                     else f'{HOST}/b{b}_{nd["id"]}.xsd')
+        if nd['parent'] is not None:
+            nodes[nd['parent']]['children'].append(nd)
+    for nd in nodes:
+        decls = ''.join(
+            f'<xs:include schemaLocation="{c["url"]}"/>' if c['kind'] == 'include'
+            else f'<xs:import namespace="{c["tns"]}" schemaLocation="{c["url"]}"/>' for c in nd['children'])
+        body = (f'<xs:schema xmlns:xs="{XS}" targetNamespace="{nd["tns"]}">{decls}'
+                f'<xs:element name="e{nd["id"]}" type="xs:string"/></xs:schema>')
+        x = pm[nd['pay']]
+        pro = x.data[:x.total - len('<xs:schema>')]
+        nd['data'] = pro + body.encode('utf-8')
+        nd['total'] = len(nd['data'])
+        nd['tag_end'] = len(pro) + body.index('>') + 1
+        nd['x'] = x
+        if nd['loc'] == 'local':
+            with open(os.path.join(R, f'b{b}_{nd["id"]}.xsd'), 'wb') as f:
+                f.write(nd['data'])
+        elif nd['loc'] == 'remote':
+            Obs.table[f'/b{b}_{nd["id"]}.xsd'] = nd['data']
+        nd['base'] = base_arg if nd['url'] is None else os.path.dirname(nd['url'])
+        nd['applies'] = applies(mode, nd['base'])
+    main = nodes[0]
+    src: Any = main['data'].decode('utf-8') if main['url'] is None else main['url']
+    kwargs: dict[str, Any] = {'defuse': mode}
+    if use_opener:
+        kwargs['opener'] = STUB_OPENER
+    if main['url'] is None and base_arg is not None:
+        kwargs['base_url'] = base_arg
+    Obs.seekable_response = seekable_resp
+    Obs.opens, Obs.served, Obs.defuse_calls, Obs.seeks, Obs.trace, Obs.stack = [], [], [], [], [], []
+    status = 'ok'
+    with warnings.catch_warnings():
+        warnings.simplefilter('ignore')
+        Obs.active = True
+        try:
+            XMLSchema10(src, **kwargs)
+        except XMLResourceForbidden:
+            status = 'forbidden'
+        except XMLResourceOSError:
+            status = 'oserror'
+        except XMLSchemaException as e:
+            status = 'other:' + type(e).__name__
+        except Exception as e:      # noqa
+            status = 'FOREIGN:' + type(e).__name__
+        finally:
+            Obs.active = False
+    by_url = {nd['url']: nd for nd in nodes}
+    events, scans = [], {}
+    for t in Obs.trace:
+        nd = by_url.get(t[1])
+        if nd is None:
+            events.append([t[0], str(t[1])])
+        elif t[0] == 'failed':
+            events.append(['failed', nd['id'], {'XMLResourceForbidden': 'forbidden', 'XMLResourceOSError': 'oserror'}.get(t[2], t[2])])
+        else:
+            events.append([t[0], nd['id']])
+            if t[0] == 'scanned':
+                scans[nd['id']] = t[2]
+    case = dict(spec)
+    case['nodes'] = [dict(nd, payload=PAY[nd['pay']][0]) for nd in spec['nodes']]
+    ctx.case(case, len(events) > 3, tag='build')
+    ctx.count('build:status:' + status.split(':')[0])
+    ctx.count('build:resources-opened', sum(1 for e in events if e[0] == 'opened'))
+    # ---- the property on the recorded trace (no Lean involved) --------------------------------
+    det = {'events': events, 'status': status}
+    for k, e in enumerate(events):
+        if e[0] != 'parsed' or not isinstance(e[1], int):
+            continue
+        nd = nodes[e[1]]
+        if nd['applies']:
+            if k == 0 or events[k - 1] != ['scanned', nd['id']]:
+                ctx.failure('a resource was parsed during a schema build without having been scanned, although '
+                            'defusing applies to it', case, det)
+            elif nd['x'].refuse and nd['x'].irregular is None:
+                ctx.failure('a resource that declares an entity / external subset was parsed during a schema '
+                            'build although defusing applies to it', case, det)
+            elif nd['x'].refuse:
+                ctx.known_hit('C13-F4' if nd['x'].irregular == 'standalone-external' else 'C13-F5', case, det)
+    if status.startswith('FOREIGN'):
+        ctx.failure('a non-library exception escaped from a schema build', case, det)
+    # the included-schema role: a refused resource reached through includes only aborts the build
+    for nd in nodes:
+        chain, ok = nd, True
+        while chain['parent'] is not None:
+            ok = ok and chain['kind'] == 'include'
+            chain = nodes[chain['parent']]
+        opened = ['opened', nd['id']] in events
+        if ok and opened and nd['applies'] and nd['x'].refuse and nd['x'].irregular is None and status != 'forbidden':
+            ctx.failure('a refused included schema did not abort the build with XMLResourceForbidden', case, det)
+
+    def facts(nd: dict) -> dict:
+        if nd['loc'] == 'text':
+            seekable, kind = True, 'other'
+        elif nd['loc'] == 'local':
+            seekable, kind = True, 'buffered'
+        else:
+            seekable, kind = (True, 'other') if seekable_resp else (False, 'buffered')
+        rec = scans.get(nd['id'])
+        if rec is not None and rec['rewind']:
+            seekable, kind = rec['seekable'], rec['io']       # what open() actually looked at
+        return {'id': nd['id'], 'kind': nd['kind'], 'base': base_class(nd['base']), 'seekable': seekable, 'io': kind,
+                'opener': use_opener, 'url': nd['url'] is not None, 'must_refuse': handler_refuses(nd['x']),
+                'total': nd['total'], 'tag_end': nd['tag_end'], 'children': [facts(c) for c in nd['children']]}
+    return case, det, {'op': 'build', 'mode': mode, 'root': facts(main)}
+
+
+def build_traces(ctx: Ctx, drv: Optional[Driver], R: str, full: bool) -> None:
+    PAY = [(n, G.with_root(a, 'xs:schema')) for n, a in build_payloads(R)]
+    pm = materialise(ctx, drv, [a for _, a in PAY], ['<xs:schema>'] * len(PAY), ['utf-8'] * len(PAY), 'build payloads')
+    reqs, pend = [], []
+    for b in range(ctx.pick(150, 1500)):
+        case, det, req = run_build(ctx, R, gen_build_spec(ctx.rng, b, len(PAY)), PAY, pm)
+        reqs.append(req)
+        pend.append((case, det))
+    if drv is not None:
+        for (case, det), m in zip(pend, drv.query(reqs)):
+            ctx.traces += 1
+            if 'err' in m:
+                ctx.mismatch('driver error (build)', case, det, m)
+            elif m['events'] != det['events'] or m['status'] != det['status']:
+                ctx.mismatch('event trace / status of a schema build', case, det, m)
+
+
+# ----------------------------------------------------------------------------------------------
+# (5) the named counter-examples of Props/C13.lean, replayed
+# ----------------------------------------------------------------------------------------------
+def witnesses(ctx: Ctx, drv: Driver) -> None:
+    from xmlschema import XMLResource
+    from xmlschema.exceptions import XMLResourceForbidden
+    for name, fid in (('standalone', 'C13-F4'), ('peref', 'C13-F5')):
+        m = drv.query([{'op': 'witness', 'name': name}])[0]
+        ctx.traces += 1
+        data = bytes.fromhex(m['hex']) + b'<r/>'
+        case = {'witness': name, 'doc': data.decode()}
+        try:
+            XMLResource(data, defuse='always')
+            refused = False
+        except XMLResourceForbidden:
+            refused = True
+        if not m['must_refuse'] or m['classify'] != {'v': 'clean'}:
+            ctx.mismatch('witness of a _counterexample theorem', case, None, m)
+        elif refused:
+            # the code no longer shows the deviation: the counter-example theorem describes something else
+            ctx.mismatch('the counter-example witness is refused by the real code (the model no longer describes it)',
+                         case, 'forbidden', m)
+        else:
+            ctx.known_hit(fid, case, {'outcome': 'parsed'})
+            ctx.count('witness:' + name + ':reproduced')
 
 
 def synth(n: int) -> bytes:
@@ -670,7 +1077,15 @@ def translate(ctx: Ctx) -> None:
         p.write_text(text)
 
 
+def register_findings(ctx: Ctx) -> None:
+    """findings of notes/findings/C13.json (status known) that the committed known_findings.json does not list yet"""
+    for e in load_known():
+        if not any(k.get('id') == e['id'] for k in ctx.known):
+            ctx.known.append(e)
+
+
 def run(ctx: Ctx, driver_ok: bool) -> None:
+    register_findings(ctx)
     drv = Driver('drv_c13') if driver_ok else None
     explore(ctx, drv, full=not ctx.quick())
     ctx.extra['exhaustive'] = not ctx.quick()
@@ -685,44 +1100,75 @@ def search(ctx: Ctx) -> None:
 def replay(ctx: Ctx, obj: dict) -> int:
     print(json.dumps(obj, indent=1)[:3000])
     case = obj.get('input')
-    if not case or 'payload' not in case:
+    if not case:
         return 0
+    register_findings(ctx)
     install_observers()
     R = os.path.realpath(tempfile.mkdtemp(prefix='c13-', dir='/tmp'))
     Obs.root = R
     try:
+        drv: Optional[Driver] = Driver('drv_c13')
+        drv.query([{'op': 'witness', 'name': 'peref'}])
+    except Exception as e:      # noqa
+        print('model not available:', e)
+        drv = None
+    try:
         with open(os.path.join(R, 'secret.txt'), 'w') as f:
             f.write('SECRETCONTENT')
         Obs.table = {'/ext.dtd': b'<!ELEMENT x ANY>'}
-        p = [q for q in payloads(R, 70000) if q['name'] == case['payload']][0]
-        role, ch, mode = case['role'], case['channel'], case['mode']
-        text, data = render(p, 'instance' if role == 'instance' else 'schema', case.get('encoding', 'utf-8'))
-        fname = 'replay.xml'
-        with open(os.path.join(R, fname), 'wb') as f:
-            f.write(data)
-        base_arg = {'absent': None, 'local': R, 'remote': HOST + '/dir/'}.get(case['base']) if not (STATIC[ch][2] or role == 'included') else None
-        out = run_real(R, role, ch, mode, base_arg, text, data, fname)
-        print('REAL CODE:', {k: out[k] for k in ('outcome', 'exc', 'defuse_calls', 'seeks', 'secret_opened', 'ext_served')},
-              (out.get('tree') or '')[:120])
-        eff = base_arg
-        if STATIC[ch][2] or role == 'included':
-            eff = os.path.dirname(('file://' + R + '/' + fname) if ch in ('path', 'file-url') else HOST + '/' + fname)
-        does_apply = applies(mode, eff)
-        ref = run_real(R, role, ch, 'never', base_arg, text, data, fname) if does_apply and not p['refuse'] else None
-        print('defusing applies:', does_apply, '| payload must be refused:', p['refuse'])
-        try:
-            seekable, kind, has_url = STATIC[ch]
-            sk = [s for s in out['seeks'] if s['target'] == 0]
-            scan_end, buf_len = (sk[-1]['pos_before'], sk[-1]['buf']) if sk else (0, 65536)
-            m = Driver('drv_c13').query([{'op': 'plan', 'mode': mode, 'base': base_class(eff), 'seekable': seekable, 'io': kind,
-                                          'opener': ch.endswith('-opener'), 'url': has_url or role == 'included',
-                                          'must_refuse': p['refuse'], 'scan_end': scan_end, 'buf_len': buf_len}])[0]
-            print('MODEL    :', m)
-        except Exception as e:      # noqa
-            print('model not available:', e)
-        evaluate(ctx, case, out, ref, does_apply)
+        if 'build' in case:
+            PAY = [(n, G.with_root(a, 'xs:schema')) for n, a in build_payloads(R)]
+            pm = materialise(ctx, drv, [a for _, a in PAY], ['<xs:schema>'] * len(PAY), ['utf-8'] * len(PAY), 'build payloads')
+            spec = dict(case)
+            spec['nodes'] = [{k: v for k, v in nd.items() if k != 'payload'} for nd in case['nodes']]
+            _, det, req = run_build(ctx, R, spec, PAY, pm)
+            print('REAL CODE:', det)
+            if drv is not None:
+                print('MODEL    :', drv.query([req])[0])
+        elif 'grammar' in case:
+            if case.get('ast') is None:
+                print('the syntax tree of this case was not stored (large prolog)')
+                return 0
+            x = materialise(ctx, drv, [case['ast']], ['<r>t</r>'], ['utf-8'], 'replay')[0]
+            print('DOCUMENT :', x.data[:400])
+            print('REAL SCAN:', real_first_handler(x.data), '| MODEL:', x.handler, '| direct reading must-refuse:', x.refuse)
+            grammar_case(ctx, R, case['grammar'], x, case['channel'], case.get('mode', 'always'))
+        elif 'payload' in case:
+            p = [q for q in payloads(R, BIG) if q['name'] == case['payload']][0]
+            role, ch, mode, enc = case['role'], case['channel'], case['mode'], case.get('encoding', 'utf-8')
+            kind = 'instance' if role == 'instance' else 'schema'
+            ast = payload_ast(p, kind, enc)
+            if enc == 'utf-8-bom':
+                ast['bom'] = True
+            x = materialise(ctx, drv, [ast], [body_of(p, kind)], [enc], 'replay')[0]
+            fname = 'replay.xml'
+            with open(os.path.join(R, fname), 'wb') as f:
+                f.write(x.data)
+            base_arg = {'absent': None, 'local': R, 'remote': HOST + '/dir/'}.get(case['base']) if not (STATIC[ch][2] or role == 'included') else None
+            out = run_real(R, role, ch, mode, base_arg, x.text, x.data, fname)
+            print('REAL CODE:', {k: out[k] for k in ('outcome', 'exc', 'defuse_calls', 'seeks', 'secret_opened', 'ext_served')},
+                  (out.get('tree') or '')[:120])
+            eff = base_arg
+            if STATIC[ch][2] or role == 'included':
+                eff = os.path.dirname(('file://' + R + '/' + fname) if ch in ('path', 'file-url') else HOST + '/' + fname)
+            does_apply = applies(mode, eff)
+            ref = run_real(R, role, ch, 'never', base_arg, x.text, x.data, fname) if does_apply and not x.refuse else None
+            print('defusing applies:', does_apply, '| direct reading must-refuse:', x.refuse, '| handler expected by the model:', x.handler)
+            if drv is not None:
+                seekable, kind_, has_url = STATIC[ch]
+                m = drv.query([{'op': 'doc', 'mode': mode, 'base': base_class(eff), 'seekable': seekable, 'io': kind_,
+                                'opener': ch.endswith('-opener'), 'url': has_url or role == 'included',
+                                'must_refuse': handler_refuses(x), 'total': x.total, 'tag_end': x.tag_end}])[0]
+                print('MODEL    :', m)
+            c2 = dict(case)
+            evaluate(ctx, c2, out, ref, does_apply)
+        else:
+            return 0
         for f in ctx.failures:
-            print('FAILS ON THE REAL CODE:', f['what'], f['detail'])
+            print('FAILS ON THE REAL CODE:', f['what'], str(f['detail'])[:600])
+        for m in ctx.mismatches:
+            print('MODEL != CODE:', m['correspondence'])
         return 1 if ctx.failures else 0
     finally:
+        Obs.active = False
         shutil.rmtree(R, ignore_errors=True)
